@@ -166,7 +166,6 @@ Record good_facts (c : cfg) : Prop := mkGF {
   gf_order : sv_order (c_save c) = full_order;
   gf_pf : sv_protect_from (c_save c) <= 1;
   gf_os : covers (sv_handler (c_save c)) FOSError = true;
-  gf_rt : covers (sv_handler (c_save c)) FRuntimeError = true;
   gf_sets : sv_handler_sets (c_save c) = Some true;
   gf_fin : sv_finally_sets (c_save c) = None;
   gf_sched : forall fl, good_sched (sched_of c fl) = true
@@ -189,7 +188,6 @@ Proof.
   constructor.
   - apply sops_eqb_eq. exact Hs.
   - apply Nat.leb_le. assumption.
-  - assumption.
   - assumption.
   - destruct (sv_handler_sets (c_save c)) as [[|]|]; try discriminate; reflexivity.
   - destruct (sv_finally_sets (c_save c)); try discriminate; reflexivity.
@@ -222,7 +220,8 @@ Proof.
 Qed.
 
 Lemma raises_good :
-  forall c fl v f s, good_facts c -> 1 <= v_idx v -> (f = FOSError \/ f = FRuntimeError) ->
+  forall c fl v f s, good_facts c -> 1 <= v_idx v ->
+    (f = FOSError \/ (f = FRuntimeError /\ s_dirty s = true)) ->
     fst (save_raises c fl v f s) = ended (v_owner v) s true (s_fs s)
     /\ exists r, snd (save_raises c fl v f s) = OEnded false false (Some f) r.
 Proof.
@@ -230,13 +229,17 @@ Proof.
   rewrite (has_try_good c G).
   assert (Hp : Nat.leb (sv_protect_from (c_save c)) (v_idx v) = true).
   { apply Nat.leb_le. pose proof (gf_pf c G). lia. }
-  rewrite Hp.
-  assert (Hc : covers (sv_handler (c_save c)) f = true).
-  { destruct Hf; subst f; [apply (gf_os c G) | apply (gf_rt c G)]. }
-  rewrite Hc, (gf_sets c G), (gf_fin c G). simpl.
+  rewrite Hp, (gf_sets c G), (gf_fin c G). simpl.
+  assert (Hd : (if covers (sv_handler (c_save c)) f then true else s_dirty s) = true).
+  { destruct Hf as [Hf | [Hf Hd]]; subst f.
+    - rewrite (gf_os c G). reflexivity.
+    - rewrite Hd. destruct (covers _ _); reflexivity. }
   split.
-  - rewrite return_good; auto.
-    destruct (sv_handler_reraises (c_save c)); simpl; destruct Hf; subst; auto.
+  - rewrite return_good.
+    + simpl. rewrite Hd. reflexivity.
+    + exact G.
+    + destruct (covers (sv_handler (c_save c)) f && negb (sv_handler_reraises (c_save c)));
+        destruct Hf as [Hf | [Hf _]]; subst f; auto.
   - eexists; reflexivity.
 Qed.
 
@@ -316,7 +319,8 @@ Lemma substep_cases :
                      /\ (f = FIO \/ s_dirty s = true))
       \/ (* the save returned *)
       (o = OEnded false false None false /\ f = FNone /\
-       (exists fs', s' = ended (v_owner v) s (s_dirty s) fs' /\ (s_dirty s = false -> load fs' = Some (s_tree s)))
+       (exists fs', s' = ended (v_owner v) s (s_dirty s) fs' /\ (s_dirty s = false -> load fs' = Some (s_tree s))
+                    /\ load fs' = Some (v_snap v))
        /\ sv_left v (s_tree s) = 1)
       \/ (* the save goes on *)
       (o = OProgress /\ f = FNone /\
@@ -356,12 +360,13 @@ Proof.
            rewrite Estep in E1. inversion E1. subst. lia.
       * pose proof (ser_step_fail_class _ _ _ _ Estep). subst e.
         assert (Hi : 1 <= v_idx v) by lia.
-        destruct (raises_good c fl v FRuntimeError s G Hi (or_intror eq_refl)) as [H1 [r H2]].
+        assert (Hdirty : s_dirty s = true).
+        { destruct (s_dirty s) eqn:Ed; auto.
+          destruct (ser_step_progress pol (s_tree s) ss Hpol (Hcons eq_refl)) as [ph' [E1 _]].
+          rewrite Estep in E1. discriminate. }
+        destruct (raises_good c fl v FRuntimeError s G Hi (or_intror (conj eq_refl Hdirty))) as [H1 [r H2]].
         rewrite H1, H2. simpl. split; auto. split; auto. left.
-        exists FRuntimeError, r. repeat split; auto. right.
-        destruct (s_dirty s) eqn:Ed; auto.
-        destruct (ser_step_progress pol (s_tree s) ss Hpol (Hcons eq_refl)) as [ph' [E1 _]].
-        rewrite Estep in E1. discriminate.
+        exists FRuntimeError, r. repeat split; auto.
     + (* flush, fsync, close *)
       simpl. rewrite Hidx. destruct (v_exists v) eqn:Eex; simpl.
       * split; auto. split; auto. right; right. split; auto. split; auto.
@@ -388,13 +393,14 @@ Proof.
     + rewrite (has_try_good c G), (gf_fin c G). simpl.
       rewrite return_good; auto. simpl.
       split; auto. split; auto. right; left. split; auto. split; auto. split.
-      * eexists. split; [reflexivity|]. simpl. intros Hd. unfold load; simpl. rewrite Hsnap; auto.
+      * eexists. split; [reflexivity|]. simpl. split; [|reflexivity]. intros Hd. unfold load; simpl. rewrite Hsnap; auto.
       * unfold sv_left. rewrite Htodo, Eex. reflexivity.
   - (* remove bak *)
     simpl. rewrite (has_try_good c G), (gf_fin c G). simpl.
     rewrite return_good; auto. simpl.
     split; auto. split; auto. right; left. split; auto. split; auto. split.
-    + eexists. split; [reflexivity|]. simpl. intros Hd. unfold load; simpl. rewrite Hmain, Hsnap; auto.
+    + eexists. split; [reflexivity|]. simpl. split; [|unfold load; simpl; rewrite Hmain; reflexivity].
+      intros Hd. unfold load; simpl. rewrite Hmain, Hsnap; auto.
     + unfold sv_left. rewrite Htodo. reflexivity.
 Qed.
 
@@ -480,7 +486,7 @@ Proof.
     destruct (s_saving s) as [v|] eqn:Esav; [|simpl; exact Hinv].
     pose proof (substep_cases c fl pol s v f G Hpol (Hsv v eq_refl)) as H. cbv zeta in H.
     destruct H as [Ht [Hs Hc]].
-    destruct Hc as [[cls [r [_ [Hs' _]]]] | [[_ [_ [[fs' [Hs' Hl]] _]]] | [_ [_ [v' [Hv' [Ho [Hd [Ha [Hi _]]]]]]]]]].
+    destruct Hc as [[cls [r [_ [Hs' _]]]] | [[_ [_ [[fs' [Hs' [Hl _]]] _]]] | [_ [_ [v' [Hv' [Ho [Hd [Ha [Hi _]]]]]]]]]].
     + rewrite Hs'. constructor; simpl; auto; try discriminate. apply sched_end; auto.
     + rewrite Hs'. constructor; simpl; auto; try discriminate. apply sched_end; auto.
     + constructor.
@@ -646,6 +652,28 @@ Section Theorems.
       destruct Hc as [[sk' [dn' [Ho _]]] | [Ho _]]; rewrite Ho; discriminate.
   Qed.
 
+  (* a save that returns has put a complete snapshot in place; it is the current tree
+     unless a message arrived meanwhile (then need_save is True again) *)
+  Theorem ok_save_gen :
+    forall s e v, reachable c fl pol s -> s_saving s = Some v ->
+      snd (step c fl pol s e) = OEnded false false None false ->
+      let s' := fst (step c fl pol s e) in
+      load (s_fs s') = Some (v_snap v) /\ s_dirty s' = s_dirty s /\ s_saving s' = None
+      /\ (s_dirty s' = false -> v_snap v = s_tree s').
+  Proof.
+    intros s e v Hr Hv. cbv zeta.
+    pose proof (reachable_inv c fl pol s G Hpol Hr) as Hinv. pose proof Hinv as [_ Hsv _].
+    destruct e as [denied | f | m | denied]; simpl; rewrite ?Hv; simpl; try discriminate.
+    - pose proof (substep_cases c fl pol s v f G Hpol (Hsv v Hv)) as H. cbv zeta in H.
+      destruct H as [Ht [_ Hc]].
+      destruct Hc as [[cls' [r' [Ho _]]] | [[_ [_ [[fs' [Hs' [Hl Hsn]]] _]]] | [Ho _]]].
+      + rewrite Ho. discriminate.
+      + intros _. rewrite Hs'. simpl. repeat split; auto.
+        intros Hd. specialize (Hl Hd). rewrite Hsn in Hl. inversion Hl. reflexivity.
+      + rewrite Ho. discriminate.
+    - destruct (apply_msg m (s_tree s)). simpl. discriminate.
+  Qed.
+
   (* the ghost v_load0 is what a load returned when the save began ... *)
   Theorem load0_at_begin_gen :
     forall s e v, reachable c fl pol s -> s_saving s = None ->
@@ -711,7 +739,7 @@ Section Theorems.
       pose proof (substep_cases c fl pol s v FNone G Hpol (inv_sv s Hinv v Hv)) as H. cbv zeta in H.
       pose proof (step_inv c fl pol s (EStep FNone) G Hpol Hinv) as Hinv'. rewrite Hstep in Hinv'.
       destruct H as [Ht [Hs Hc]].
-      destruct Hc as [[cls' [r' [_ [_ [_ [Hx | Hx]]]]]] | [[_ [_ [[fs' [Hs' Hl]] Hx]]] | [_ [_ [v1 [Hv1 [Ho [Hd1 [Ha [_ [_ Hx]]]]]]]]]]].
+      destruct Hc as [[cls' [r' [_ [_ [_ [Hx | Hx]]]]]] | [[_ [_ [[fs' [Hs' [Hl _]]] Hx]]] | [_ [_ [v1 [Hv1 [Ho [Hd1 [Ha [_ [_ Hx]]]]]]]]]]].
       + discriminate.
       + congruence.
       + assert (n = 0) by congruence. subst n. exists fs'. rewrite Hs', Hd. simpl. auto.
@@ -744,7 +772,7 @@ Section Theorems.
       assert (Hn : sv_left v (s_tree (fst (begin_save c fl OSched false (mkSt (s_tree s) (s_dirty s) (s_fs s) false (s_stopped s) None)))) = save_len (s_tree s) (is_some (f_main (s_fs s))))
         by (rewrite Ht; exact Hlen).
       destruct (quiet_run _ _ v Hinv1 Hv Hd1 Hn) as [fs' [Hrun Hl]].
-      rewrite Hrun. unfold ended. simpl. rewrite Ho. simpl. rewrite Ht in Hl. rewrite Ht, Hs. auto.
+      rewrite Hrun. unfold ended. simpl. rewrite Ho. simpl. rewrite Ht in Hl. rewrite Ht, Hs. repeat split; auto.
   Qed.
 
   Theorem stop_persists_gen :
@@ -772,7 +800,65 @@ Section Theorems.
       assert (Hn : sv_left v (s_tree (fst (begin_save c fl OFinal false (mkSt (s_tree s) (s_dirty s) (s_fs s) false true None)))) = save_len (s_tree s) (is_some (f_main (s_fs s))))
         by (rewrite Ht; exact Hlen).
       destruct (quiet_run _ _ v Hinv1 Hv Hd1 Hn) as [fs' [Hrun Hl]].
-      rewrite Hrun. unfold ended. simpl. rewrite Ho. simpl. rewrite Ht in Hl. rewrite Ht, Hs, Ha. auto.
+      rewrite Hrun. unfold ended. simpl. rewrite Ho. simpl. rewrite Ht in Hl. rewrite Ht, Hs, Ha. repeat split; auto.
   Qed.
 
 End Theorems.
+
+(* ------------------------------------------------------------------ the pre-fix shapes violate the theorems *)
+
+Definition ex_tree : tree := [mkNode 1 17 [mkChild 1 6 [(0, 20)%Z]]; mkNode 2 18 []].
+Definition no_file : fsys := mkFs None None.
+
+(* D10 (flag cleared after the renames): a message handled between the serialisation
+   and the clear is marked saved although it is not in the file *)
+Definition d10_witness : list event :=
+  [EFire false; EStep FNone; EMsg (AddNode 1 17); EStep FNone; EStep FNone].
+
+Lemma no_lost_update_unfixed_refuted_gen :
+  forall fl f,
+    let s := run cfg_d10 fl (pol_of f) (init [] no_file) d10_witness in
+    s_saving s = None /\ s_dirty s = false /\ s_stopped s = false
+    /\ load (s_fs s) = Some [] /\ s_tree s = [mkNode 1 17 []].
+Proof. intros fl f; destruct fl, f; vm_compute; repeat split; reflexivity. Qed.
+
+(* D9 (no try/except around the save): one failing sub-step and nothing is scheduled any more *)
+Definition d9_witness : list event := [EFire false; EStep FIO].
+
+Lemma schedule_survives_unfixed_refuted_gen :
+  forall fl f,
+    let s := run cfg_d9 fl (pol_of f) (init ex_tree no_file) d9_witness in
+    s_stopped s = false /\ s_armed s = false /\ s_saving s = None /\ s_dirty s = true.
+Proof. intros fl f; destruct fl, f; vm_compute; repeat split; reflexivity. Qed.
+
+(* the same two histories under the fixed shape *)
+Lemma witnesses_fixed :
+  forall fl f,
+    let s := run cfg_fixed fl (pol_of f) (init [] no_file) d10_witness in
+    let s2 := run cfg_fixed fl (pol_of f) (init ex_tree no_file) d9_witness in
+    (s_saving s = None /\ s_dirty s = true) /\ (s_armed s2 = true /\ s_dirty s2 = true).
+Proof. intros fl f; destruct fl, f; vm_compute; repeat split; reflexivity. Qed.
+
+Lemma good_fixed : good cfg_fixed = true.
+Proof. vm_compute. reflexivity. Qed.
+Lemma not_good_d9 : good cfg_d9 = false.
+Proof. vm_compute. reflexivity. Qed.
+Lemma not_good_d10 : good cfg_d10 = false.
+Proof. vm_compute. reflexivity. Qed.
+
+(* non-vacuity: a history with a RuntimeError, an OSError and a healing save, ending idle and clean *)
+Definition ex_history : list event :=
+  [EFire false; EStep FNone; EStep FNone; EMsg (AddChild 1 7 6); EStep FNone;      (* RuntimeError (json) *)
+   EFire false; EStep FNone; EStep FIO;                                           (* OSError *)
+   EFire false] ++ repeat (EStep FNone) 7.                                         (* heals *)
+
+Lemma ex_history_heals :
+  let s := run cfg_fixed Sync pol_json (init ex_tree no_file) ex_history in
+  s_saving s = None /\ s_dirty s = false /\ s_armed s = true
+  /\ load (s_fs s) = Some (s_tree s) /\ length (s_tree s) = 2.
+Proof. vm_compute. repeat split; reflexivity. Qed.
+
+Lemma ex_failed_step :
+  let s := run cfg_fixed Async pol_pickle (init ex_tree no_file) [EFire false; EStep FNone] in
+  snd (step cfg_fixed Async pol_pickle s (EStep FIO)) = OEnded false false (Some FOSError) true.
+Proof. vm_compute. reflexivity. Qed.
